@@ -77,6 +77,14 @@ def getChild (s : NodeStore) (n : TreeNode) (d : Direction) (epoch : Nat) : Exce
     | .error .notFound => .ok none
     | .error _ => .error .notFound
 
+/-- `get_child_node_for_proof` (append_only_zks.rs, fix D13): the child of a node as the PROOF GENERATORS load it — a node
+that names a child has that child; when it cannot be read as of `epoch` the call fails instead of reporting an absent
+child (`get_child_node` itself keeps turning "not found" into "no child": `update_hash` relies on it) -/
+def getChildForProof (s : NodeStore) (n : TreeNode) (d : Direction) (epoch : Nat) : Except Err (Option TreeNode) :=
+  match s.getChild n d epoch with
+  | .ok none => if (n.childLabel d).isSome then .error .notFound else .ok none
+  | r => r
+
 /-- `update_hash` (tree_node.rs:380-410). -/
 def updateHash (c : Cfg) (s : NodeStore) (n : TreeNode) (mode : InsertMode) : Except Err TreeNode :=
   if n.nodeType = .leaf then .ok n
@@ -184,7 +192,7 @@ def rootHash (c : Cfg) (s : NodeStore) (a : Azks) : Except Err Dig :=
 
 /-- `get_child_azks_element_in_dir` (append_only_zks.rs:1222-1235). -/
 def childElement (c : Cfg) (s : NodeStore) (n : TreeNode) (d : Direction) (epoch : Nat) : Except Err AzksElement :=
-  match s.getChild n d epoch with
+  match s.getChildForProof n d epoch with
   | .ok ch => .ok ⟨nodeToLabel c ch, nodeToAzksValue c true ch⟩
   | .error e => .error e
 
@@ -199,7 +207,7 @@ def lcpWalk (c : Cfg) (s : NodeStore) (label : NodeLabel) (epoch : Nat) :
     if equal || ord = .invalid then .ok (cur, prev, sps, equal)
     else
       let dir : Direction := if ord = .withZero then .left else .right
-      match s.getChild cur dir epoch with
+      match s.getChildForProof cur dir epoch with
       | .error e => .error e
       | .ok none => .ok (cur, prev, sps, equal)      -- the root has no child in this direction: `break`
       | .ok (some child) =>
@@ -236,7 +244,7 @@ def nonMembershipProof (c : Cfg) (s : NodeStore) (a : Azks) (label : NodeLabel) 
     | .ok lcpNode =>
       let emptyEl : AzksElement := ⟨c.emptyLabel, c.emptyNodeHash⟩
       let childEl (d : Direction) : Except Err AzksElement :=
-        match s.getChild lcpNode d a.latestEpoch with
+        match s.getChildForProof lcpNode d a.latestEpoch with
         | .error e => .error e
         | .ok none => .ok emptyEl
         | .ok (some ch) =>
